@@ -3,6 +3,7 @@ import hashlib
 import json
 import os
 import shutil
+import stat
 import tempfile
 
 import cli_runner
@@ -28,6 +29,8 @@ def snapshot(root):
                 snap[rel] = ("link", os.readlink(p))
             elif os.path.isdir(p):
                 snap[rel] = ("dir",)
+            elif not stat.S_ISREG(st.st_mode):
+                snap[rel] = ("special", stat.S_IFMT(st.st_mode))       # a FIFO or a socket: never opened
             else:
                 with open(p, "rb") as f:
                     snap[rel] = ("file", st.st_size, hashlib.sha256(f.read()).hexdigest())
@@ -129,12 +132,25 @@ def run(run, model, proof):
                 kind, argv = "readonly", first + rng.choice([["-D"], ["-d", espell]])
             ext = rng.choice(["", "", ".pel", ".bak"]) if kind == "json" else ""
             argv = ["-p", pel] + sel + pl + (["-e", ext] if ext else []) + argv
+            socks = []
+            if kind in ("delete", "delete-all") and rng.random() < 0.5:
+                # entries that are neither regular files nor directories: a FIFO, a unix socket (only the delete modes, which look
+                # at names and types, meet them here: a listing mode would block opening a FIFO).  No option may remove them.
+                import socket as _socket
+                if rng.random() < 0.7:
+                    os.mkfifo(os.path.join(pel, rng.choice(["aa_fifo", "zz_fifo", "pipe.pel"])))
+                if rng.random() < 0.5:
+                    sk = _socket.socket(_socket.AF_UNIX)
+                    sk.bind(os.path.join(pel, rng.choice(["a_sock", "zz_sock"])))
+                    socks.append(sk)
             before = snapshot(root)
             walk = next(os.walk(pel))[2]
             regular = {w: os.path.isfile(os.path.join(pel, w)) for w in walk}
             rc, out, err = cli_runner.run_inproc(argv)
             after = snapshot(root)
         finally:
+            for sk in locals().get("socks", []):
+                sk.close()
             shutil.rmtree(root, ignore_errors=True)
         removed, created, changed = diff(before, after)
         run.evaluations += 1
